@@ -85,7 +85,7 @@ func (eng) Cases(seed uint64, tier string) []core.CaseDesc {
 	// sampled
 	nr := 500
 	if tier == "thorough" {
-		nr = 20000
+		nr = 120000
 	}
 	for i := 0; i < nr; i++ {
 		cs = append(cs, mk(fmt.Sprintf("rand/%05d", i), "rand", seed*1000003+uint64(i), nil))
